@@ -160,6 +160,28 @@ func subjectsForShard() []*glue.Subject {
 	return out
 }
 
+// allSubjects returns every subject type (restricted by -types); engines that shard by case use it.
+func allSubjects() []*glue.Subject {
+	all := glue.All()
+	if *flagTypes == "" {
+		return all
+	}
+	re := regexp.MustCompile(*flagTypes)
+	var out []*glue.Subject
+	for _, s := range all {
+		if re.MatchString(string(s.FullName)) {
+			out = append(out, s)
+		}
+	}
+	return out
+}
+
+// mineCase: case i of type number ti belongs to this shard (balanced: every shard sees every type).
+func mineCase(ti, i int) bool {
+	si, sn := shard()
+	return (ti+i)%sn == si
+}
+
 func caseSeed(seed int64, typ string, idx int, salt string) int64 {
 	h := fnv.New64a()
 	fmt.Fprintf(h, "%d|%s|%d|%s", seed, typ, idx, salt)
